@@ -35,6 +35,8 @@ def slots(T):
         'after_package': (head, []),
         'header': (head, S('INTERFACE', 'IDENT', '"{"', '"}"')),
         'trailing': (head + S('INTERFACE', 'IDENT', '"{"', '"}"'), []),
+        'trailing_parcelable': (head + S('PARCELABLE', 'IDENT', '"{"', '"}"'), []),
+        'trailing_enum': (head + S('ENUM', 'IDENT', '"{"', 'IDENT', '"}"'), []),
         'iface_body': (head + S('INTERFACE', 'IDENT', '"{"'), S('"}"')),
         'parc_body': (head + S('PARCELABLE', 'IDENT', '"{"'), S('"}"')),
         'enum_body': (head + S('ENUM', 'IDENT', '"{"'), S('"}"')),
@@ -120,10 +122,10 @@ def _init(T):
 def plan(T, tier):
     """(slot, kmax) per tier; windows of length >= 4 are split on the first token's domain across the workers."""
     if tier == 'quick':
-        km = {'whole': 4, 'after_package': 4, 'header': 4, 'trailing': 3, 'iface_body': 4, 'parc_body': 4, 'enum_body': 5, 'args': 4, 'after_type': 4,
+        km = {'whole': 4, 'after_package': 4, 'header': 4, 'trailing': 3, 'trailing_parcelable': 3, 'trailing_enum': 3, 'iface_body': 4, 'parc_body': 4, 'enum_body': 5, 'args': 4, 'after_type': 4,
               'field_value': 4, 'const_value': 4, 'annotation_params': 4, 'type_params': 4, 'package_name': 4, 'import_path': 4}
     else:
-        km = {'whole': 5, 'after_package': 5, 'header': 5, 'trailing': 4, 'iface_body': 5, 'parc_body': 5, 'enum_body': 6, 'args': 5, 'after_type': 5,
+        km = {'whole': 5, 'after_package': 5, 'header': 5, 'trailing': 4, 'trailing_parcelable': 4, 'trailing_enum': 4, 'iface_body': 5, 'parc_body': 5, 'enum_body': 6, 'args': 5, 'after_type': 5,
               'field_value': 5, 'const_value': 5, 'annotation_params': 5, 'type_params': 5, 'package_name': 5, 'import_path': 5}
     jobs = []
     for slot, kmax in km.items():
